@@ -465,6 +465,8 @@ pub enum Op {
   NewWriter { h: usize },
   Add { h: usize, id: String, ver: u64 },
   Delete { h: usize, id: String },
+  /// `delete_documents` with several ids in one call
+  DeleteMany { h: usize, ids: Vec<String> },
   Commit { h: usize },
   Rollback { h: usize },
   DropWriter { h: usize },
@@ -498,6 +500,7 @@ impl Op {
       Op::NewWriter { .. } => "new_writer",
       Op::Add { .. } => "add",
       Op::Delete { .. } => "delete",
+      Op::DeleteMany { .. } => "delete_many",
       Op::Commit { .. } => "commit",
       Op::Rollback { .. } => "rollback",
       Op::DropWriter { .. } => "drop_writer",
@@ -516,6 +519,7 @@ impl Op {
       Op::NewWriter { h } => format!("w{}=writer()", h),
       Op::Add { h, id, ver } => format!("w{}.add({}@{})", h, id, ver),
       Op::Delete { h, id } => format!("w{}.delete({})", h, id),
+      Op::DeleteMany { h, ids } => format!("w{}.delete_documents({:?})", h, ids),
       Op::Commit { h } => format!("w{}.commit()", h),
       Op::Rollback { h } => format!("w{}.rollback()", h),
       Op::DropWriter { h } => format!("drop(w{})", h),
@@ -534,6 +538,7 @@ impl Op {
       Op::NewWriter { h }
       | Op::Add { h, .. }
       | Op::Delete { h, .. }
+      | Op::DeleteMany { h, .. }
       | Op::Commit { h }
       | Op::Rollback { h }
       | Op::Savepoint { h }
@@ -563,6 +568,8 @@ pub struct GenParams {
   /// now and then a handle deletes every id, commits, and the index is
   /// compacted (an index whose segments hold no live document)
   pub purge: bool,
+  /// one delete in four goes through `delete_documents` with 2-3 ids
+  pub multi_delete: bool,
 }
 
 /// Generates a history that is valid in its own context (ops refer to live
@@ -697,7 +704,15 @@ pub fn gen_ops(rng: &mut Rng, cfg: &Cfg, p: &GenParams) -> Vec<Op> {
       2 => {
         let h = *rng.pick(&live);
         let id = rng.pick(&ids).clone();
-        ops.push(Op::Delete { h, id });
+        if p.multi_delete && rng.chance(1, 4) {
+          let mut v = vec![id];
+          for _ in 0..1 + rng.usize(2) {
+            v.push(rng.pick(&ids).clone());
+          }
+          ops.push(Op::DeleteMany { h, ids: v });
+        } else {
+          ops.push(Op::Delete { h, id });
+        }
       }
       3 => ops.push(Op::Commit { h: *rng.pick(&live) }),
       4 => ops.push(Op::Rollback { h: *rng.pick(&live) }),
@@ -1044,7 +1059,7 @@ impl Session {
   pub fn applicable(&self, op: &Op) -> bool {
     match op {
       Op::NewWriter { h } => !self.writers.contains_key(h) && self.index.is_some(),
-      Op::Add { h, .. } | Op::Delete { h, .. } | Op::Commit { h } | Op::Rollback { h } | Op::DropWriter { h } => {
+      Op::Add { h, .. } | Op::Delete { h, .. } | Op::DeleteMany { h, .. } | Op::Commit { h } | Op::Rollback { h } | Op::DropWriter { h } => {
         self.writers.contains_key(h)
       }
       Op::Savepoint { h } => self.writers.contains_key(h),
@@ -1085,6 +1100,13 @@ impl Session {
       Op::Delete { h, id } => {
         let w = self.writers.get_mut(h).unwrap();
         match guarded(|| w.delete_document(id)) {
+          Ok(()) => Outcome::Ok,
+          Err(o) => o,
+        }
+      }
+      Op::DeleteMany { h, ids } => {
+        let w = self.writers.get_mut(h).unwrap();
+        match guarded(|| w.delete_documents(ids)) {
           Ok(()) => Outcome::Ok,
           Err(o) => o,
         }
@@ -1159,6 +1181,7 @@ pub fn ids_in(ops: &[Op]) -> BTreeSet<String> {
     .iter()
     .filter_map(|o| match o {
       Op::Add { id, .. } | Op::Delete { id, .. } => Some(id.clone()),
+      Op::DeleteMany { ids, .. } => ids.first().cloned(),
       _ => None,
     })
     .collect()
